@@ -47,6 +47,7 @@ func c01Gen(r *rand.Rand, tier string) any {
 		case k < 17:
 			op := opSpec{Op: "build", Label: pickLabel(r, shadow)}
 			op.Reload = r.IntN(6) == 0
+			op.Keep = !op.Reload && r.IntN(5) == 0
 			if r.IntN(8) == 0 {
 				op.Always = true
 			}
